@@ -105,8 +105,8 @@ M('c05a-is-complete-or', 'C05', 'break', TX,
   '    if ((tx->request_progress != HTP_REQUEST_COMPLETE) || (tx->response_progress != HTP_RESPONSE_COMPLETE)) {',
   '    if ((tx->request_progress != HTP_REQUEST_COMPLETE) && (tx->response_progress != HTP_RESPONSE_COMPLETE)) {', 'C05.a')
 M('c05a-finalize-without-test', 'C05', 'break', TX,
-  '    if (!htp_tx_is_complete(tx)) return HTP_OK;\n\n    // Run hook TRANSACTION_COMPLETE.',
-  '    if (tx->response_progress != HTP_RESPONSE_COMPLETE) return HTP_OK;\n\n    // Run hook TRANSACTION_COMPLETE.', 'C05.a')
+  '    if (!htp_tx_is_complete(tx)) return HTP_OK;\n',
+  '    if (tx->response_progress != HTP_RESPONSE_COMPLETE) return HTP_OK;\n', 'C05.a')
 M('c05a-keep-swap-arms', 'C05', 'keep', TX,
   '    if (tx->request_progress != HTP_REQUEST_COMPLETE) {\n        htp_status_t rc = htp_tx_state_request_complete_partial(tx);\n        if (rc != HTP_OK) return rc;\n    }',
   '    if (tx->request_progress == HTP_REQUEST_COMPLETE) {\n    } else {\n        htp_status_t rc = htp_tx_state_request_complete_partial(tx);\n        if (rc != HTP_OK) return rc;\n    }')
@@ -171,14 +171,13 @@ M('c06b-identity-left-not-decremented-on-path', 'C06', 'break', RQ,
   '    connp->in_body_data_left -= bytes_to_consume;\n\n    if (connp->in_body_data_left == 0) {',
   '    if (bytes_to_consume > 1) connp->in_body_data_left -= bytes_to_consume;\n\n    if (connp->in_body_data_left == 0) {', 'C06.b')
 M('c06b-keep-reorder', 'C06', 'keep', RQ,
-  '    connp->in_current_read_offset += bytes_to_consume;\n    connp->in_current_consume_offset += bytes_to_consume;\n    connp->in_stream_offset += bytes_to_consume;\n    connp->in_tx->request_message_len += bytes_to_consume;\n    connp->in_body_data_left -= bytes_to_consume;',
-  '    connp->in_body_data_left -= bytes_to_consume;\n    connp->in_tx->request_message_len += bytes_to_consume;\n    connp->in_stream_offset += bytes_to_consume;\n    connp->in_current_consume_offset += bytes_to_consume;\n    connp->in_current_read_offset += bytes_to_consume;')
+  '    connp->in_current_read_offset += bytes_to_consume;\n    connp->in_current_consume_offset += bytes_to_consume;\n    connp->in_stream_offset += bytes_to_consume;\n    connp->in_body_data_left -= bytes_to_consume;',
+  '    connp->in_body_data_left -= bytes_to_consume;\n    connp->in_stream_offset += bytes_to_consume;\n    connp->in_current_consume_offset += bytes_to_consume;\n    connp->in_current_read_offset += bytes_to_consume;')
 M('c06b-min-shape-broken', 'C06', 'break', RS,
   '    if (connp->out_current_len - connp->out_current_read_offset >= connp->out_body_data_left) {\n        bytes_to_consume = connp->out_body_data_left;',
   '    if (connp->out_current_len - connp->out_current_read_offset + 1 >= connp->out_body_data_left) {\n        bytes_to_consume = connp->out_body_data_left;', 'C06.b')
-M('c06c-chunked-message-len-missing', 'C06', 'break', RQ,
-  '    connp->in_tx->request_message_len += bytes_to_consume;\n    connp->in_chunked_length -= bytes_to_consume;',
-  '    connp->in_chunked_length -= bytes_to_consume;', 'C06.c')
+M('c06c-central-message-len-missing', 'C06', 'break', TX,
+  '    // Keep track of body size before decompression.\n    tx->request_message_len += d.len;\n\n    switch(tx->request_content_encoding) {', '    switch(tx->request_content_encoding) {', 'C06')
 M('c06c-response-central-accounting-moved', 'C06', 'break', TX,
   '    // Keep track of body size before decompression.\n    tx->response_message_len += d.len;\n',
   '', 'C06.c', edits=[(TX, '    // Keep track of body size before decompression.\n    tx->response_message_len += d.len;\n', ''),
@@ -460,9 +459,9 @@ M('c06f-res-line-end-counts-lf-only', 'C06', 'break', RS,
 M('c06f-req-line-end-batched', 'C06', 'break', RQ,
   '    for (;;) {\n        IN_NEXT_BYTE_OR_RETURN(connp);\n\n        connp->in_tx->request_message_len++;\n\n        if (connp->in_next_byte == LF) {',
   '    int64_t start_offset = connp->in_current_read_offset;\n    for (;;) {\n        IN_NEXT_BYTE_OR_RETURN(connp);\n\n        if (connp->in_next_byte == LF) {\n            connp->in_tx->request_message_len += connp->in_current_read_offset - start_offset;', 'C06.f')
-M('c06f-account-first-keep', 'C06', 'keep', RQ,
-  '    connp->in_current_read_offset += bytes_to_consume;\n    connp->in_current_consume_offset += bytes_to_consume;\n    connp->in_stream_offset += bytes_to_consume;\n    connp->in_tx->request_message_len += bytes_to_consume;\n    connp->in_chunked_length -= bytes_to_consume;',
-  '    connp->in_tx->request_message_len += bytes_to_consume;\n    connp->in_current_read_offset += bytes_to_consume;\n    connp->in_current_consume_offset += bytes_to_consume;\n    connp->in_stream_offset += bytes_to_consume;\n    connp->in_chunked_length -= bytes_to_consume;')
+M('c06f-offsets-reordered-keep', 'C06', 'keep', RQ,
+  '    connp->in_current_read_offset += bytes_to_consume;\n    connp->in_current_consume_offset += bytes_to_consume;\n    connp->in_stream_offset += bytes_to_consume;\n    connp->in_chunked_length -= bytes_to_consume;',
+  '    connp->in_stream_offset += bytes_to_consume;\n    connp->in_current_consume_offset += bytes_to_consume;\n    connp->in_current_read_offset += bytes_to_consume;\n    connp->in_chunked_length -= bytes_to_consume;')
 
 # ---------------- C03.f
 M('c03f-res-clear-keeps-size', 'C03', 'break', RS,
@@ -746,14 +745,14 @@ M('c19g-destroy-inferred-from-pointers', 'C19', 'break', TX,
 
 # ---------------- co-updated fields (C06.h, C07.k, C02.g)
 M('c06h-stream-offset-not-advanced', 'C06', 'break', RQ,
-  '    connp->in_current_consume_offset += bytes_to_consume;\n    connp->in_stream_offset += bytes_to_consume;\n    connp->in_tx->request_message_len += bytes_to_consume;\n    connp->in_chunked_length -= bytes_to_consume;',
-  '    connp->in_current_consume_offset += bytes_to_consume;\n    connp->in_tx->request_message_len += bytes_to_consume;\n    connp->in_chunked_length -= bytes_to_consume;', 'C06.h')
+  '    connp->in_current_consume_offset += bytes_to_consume;\n    connp->in_stream_offset += bytes_to_consume;\n    connp->in_chunked_length -= bytes_to_consume;',
+  '    connp->in_current_consume_offset += bytes_to_consume;\n    connp->in_chunked_length -= bytes_to_consume;', 'C06.h')
 M('c06h-res-stream-offset-moved-out-of-branch', 'C06', 'break', RS,
   '        connp->out_stream_offset += bytes_to_consume;        \n    }\n',
   '    }\n    connp->out_stream_offset += 1;\n', 'C06.h')
 M('c06h-order-swapped-keep', 'C06', 'keep', RQ,
-  '    connp->in_current_consume_offset += bytes_to_consume;\n    connp->in_stream_offset += bytes_to_consume;\n    connp->in_tx->request_message_len += bytes_to_consume;\n    connp->in_chunked_length -= bytes_to_consume;',
-  '    connp->in_stream_offset += bytes_to_consume;\n    connp->in_current_consume_offset += bytes_to_consume;\n    connp->in_tx->request_message_len += bytes_to_consume;\n    connp->in_chunked_length -= bytes_to_consume;')
+  '    connp->in_current_consume_offset += bytes_to_consume;\n    connp->in_stream_offset += bytes_to_consume;\n    connp->in_chunked_length -= bytes_to_consume;',
+  '    connp->in_stream_offset += bytes_to_consume;\n    connp->in_current_consume_offset += bytes_to_consume;\n    connp->in_chunked_length -= bytes_to_consume;')
 M('c07k-next-out-not-reset', 'C07', 'break', 'htp/htp_decompressors.c',
   '            drec->stream.avail_out = GZIP_BUF_SIZE;\n            drec->stream.next_out = drec->buffer;\n            // TODO Handle trailer.',
   '            drec->stream.avail_out = GZIP_BUF_SIZE;\n            // TODO Handle trailer.', 'C07.k')
